@@ -95,7 +95,7 @@ pub fn oracle(plan: &bodyx::BodyPlan, o: &Observed) -> Verdict {
                 }
             }
         },
-        ReadMode::Json => match (&o.calls[0].res, &o.text) {
+        ReadMode::Json | ReadMode::JsonUtf8 => match (&o.calls[0].res, &o.text) {
             (Err(k), _) => violation(format!("error-on-wellformed:{}", k), format!("json() failed with {}", k)),
             (Ok(_), Some(t)) => {
                 let want = serde_json::from_slice::<serde_json::Value>(payload).map(|v| serde_json::to_string(&v).unwrap_or_default()).unwrap_or_default();
@@ -107,7 +107,7 @@ pub fn oracle(plan: &bodyx::BodyPlan, o: &Observed) -> Verdict {
             }
             _ => violation("output-mismatch", "json() returned nothing"),
         },
-        ReadMode::TextUtf8 => match (&o.calls[0].res, &o.text) {
+        ReadMode::TextUtf8 | ReadMode::Text => match (&o.calls[0].res, &o.text) {
             (Err(k), _) => violation(format!("error-on-wellformed:{}", k), format!("text_utf8 failed with {}", k)),
             (Ok(_), Some(t)) => {
                 if *t != String::from_utf8_lossy(payload) {
